@@ -220,6 +220,16 @@ def rule_release(ctx, rule):
               message="get_lock_file can exit (normally or by exception in the with body) without "
                       "calling release()", how="every path from acquire() to any exit passes release()",
               witness=wit)
+    # a failed acquire() holds nothing: release() (rename + unlink by path) after it would remove the lock of whoever holds it
+    for a in acq:
+        exc = [m for k, m in a.succ if k == "e"]
+        r = g.reachable(exc) if exc else set()
+        hit = [x for x in rel if x in r]
+        ctx.check(not hit, rule, f.short, "no-release-after-failed-acquire",
+                  message="get_lock_file calls release() when acquire() itself raised (acquire moved inside the try?): release removes <file>.lock by path, "
+                          "so a worker whose lock creation failed (ENOSPC, EMFILE, ...) deletes the lock of the worker that holds it - a third worker then "
+                          "acquires and writes into the middle of the holder's record",
+                  how="no release() reachable from the exceptional edge of the acquire() statement", where=where(f, a.ast))
     # the yield is dominated by acquire
     for y in yld:
         ctx.check(g.dominated_by(y, acq), rule, f.short, "acquire-before-yield",
@@ -450,6 +460,68 @@ def rule_takeover(ctx, rule):
                               f"Needs: a dead holder, two waiters past the grace period, the second preempted between its test and its rename",
                       how="the removal routine receives / re-validates the identity (st_mtime, st_ino) of the lock that was observed", where=where(f, c))
     ctx.floor(rule, "lock_classes", n_cls, 2, exact=True)
+
+
+def _protecting_handlers(node, pm):
+    """Handlers of every try statement whose *body* contains `node` (innermost first), within the enclosing function."""
+    out, child = [], node
+    while id(child) in pm:
+        par = pm[id(child)]
+        if isinstance(par, (ast.FunctionDef, ast.AsyncFunctionDef, ast.Lambda)):
+            break
+        if isinstance(par, ast.Try) and any(child is b for b in par.body):
+            out.extend(par.handlers)
+        child = par
+    return out
+
+
+def rule_takeover_lost_race(ctx, rule):
+    """A waiter that loses the race for a stale lock keeps waiting.
+
+    After the grace period every waiter tries to remove the dead holder's lock; only one rename can
+    succeed. What the removal routine raises in that case (derived from its own `raise` statements,
+    and OSError for a bare os.rename/os.unlink) must be caught around the take-over call and must
+    not leave acquire(): a survivor's storage call would otherwise fail although nothing is wrong.
+    """
+    p = ctx.program
+    n_sites = 0
+    for cls in lock_classes(p):
+        f = cls.methods.get("acquire")
+        if f is None:
+            continue
+        pm = parent_map(f.node)
+        rel = p.lookup_method(cls, "release")
+        raised = set()
+        if rel is not None:
+            for x in own_nodes(rel.node):
+                if isinstance(x, ast.Raise) and x.exc is not None:
+                    e = x.exc.func if isinstance(x.exc, ast.Call) else x.exc
+                    if dotted(e):
+                        raised.add(dotted(e).split(".")[-1])
+        for c in own_nodes(f.node):
+            if not isinstance(c, ast.Call):
+                continue
+            if self_attr(c.func) == "release":
+                need = set(raised)
+            elif dotted(c.func) in ("os.unlink", "os.remove", "os.rename") and c.args and "_lock_file" in norm(c.args[0]):
+                need = {"OSError"}
+            else:
+                continue
+            anc = [a for a in ancestors(c, pm) if isinstance(a, ast.ExceptHandler)]
+            if not (anc and "OSError" in handler_names(anc[0].type) and "BaseException" not in handler_names(anc[0].type)):
+                continue  # the clean-up call of the `except BaseException` arm re-raises by design
+            n_sites += 1
+            hs = _protecting_handlers(c, pm)
+            for E in sorted(need):
+                fam = {E, "Exception", "BaseException"} | ({"OSError"} if E in ("FileNotFoundError", "FileExistsError", "PermissionError") else set())
+                h = next((h for h in hs if h.type is None or fam & set(handler_names(h.type))), None)
+                swallowed = h is not None and not any(isinstance(x, ast.Raise) for s in h.body for x in ast.walk(s))
+                ctx.check(swallowed, rule, f.short, f"lost-takeover-race-is-not-an-error:{E}",
+                          message=f"{cls.name}.acquire: `{norm(c)[:40]}` on the take-over path can raise {E} (another waiter removed the stale lock first) and "
+                                  f"nothing around the call catches it: with two survivors blocked on a dead worker's lock, the loser's storage call fails with {E} "
+                                  f"and its write is never recorded",
+                          how=f"the call sits in a try body with a non-re-raising `except {E}` arm inside the retry loop", where=where(f, c))
+    ctx.floor(rule, "takeover_removal_sites", n_sites, 2)
 
 
 def rule_append_starts_on_record_boundary(ctx, rule):
